@@ -8,6 +8,9 @@ Oracle on the implementation, on two real files in a tempfile.mkdtemp() director
   some address does not resolve  ->  the call raises and neither file changes.
   eval mode: a statement position that was addressed carries `name: Literal[<the evaluated values>]` (through the template).
   A point may ask for input file == output file (two locations of one module): then only that file exists.
+  A point may say how the call is made (`route`: the function, the command line in this process or in a process of its
+  own) and which earlier calls were made in the same process on the same paths (`history`, see fam_syncprops): the
+  property is the same - the call is judged against the files as they are when it starts.
 Failures are classified by finding_class_C14 (Coq, through the driver); class None = inside the proved region.
 Where that classifier is silent and a node other than the addressed ones changed, the refined classifier finding_class_C14_r
 (coq/model/C14Spec2.v) is given the module the output file really holds afterwards: it names other-docstring-reformatted
@@ -182,20 +185,28 @@ def _impl_judge(pt):
         if same_file:
             assert isrc == osrc
             ipath = opath
+        # earlier calls of the same process on these paths (a point may carry a history), then the files as the point says
+        fam_syncprops.play_history(m, d, pt.get("history"), ipath, opath)
         with open(ipath, "wb") as f:
             f.write(isrc.encode("utf-8"))
         with open(opath, "wb") as f:
             f.write(osrc.encode("utf-8"))
-        exc = None
-        try:
-            m.sync_properties.sync_properties(ev, ipath, list(ips), opath, list(ops), wrap)
-        except Exception as e:  # noqa
-            exc = type(e).__name__
+        present = set(os.listdir(d))
+        others = {}
+        for fn_ in present - {os.path.basename(ipath), os.path.basename(opath)}:
+            with open(os.path.join(d, fn_), "rb") as f:
+                others[fn_] = f.read()
+        # the call: the function, or the command line (in this process / in a process of its own)
+        exc = fam_syncprops.invoke(m, pt.get("route"), ev, ipath, list(ips), opath, list(ops), wrap)
         with open(ipath, "rb") as f:
             in_after = f.read()
         with open(opath, "rb") as f:
             out_after = f.read()
-        leftovers = sorted(set(os.listdir(d)) - {"input_file.py", "output_file.py"})
+        leftovers = sorted(set(os.listdir(d)) - present)
+        for fn_, before_ in others.items():
+            with open(os.path.join(d, fn_), "rb") as f:
+                if f.read() != before_:
+                    leftovers.append(fn_ + " (a file of an earlier call, rewritten)")
     finally:
         shutil.rmtree(d, ignore_errors=True)
     if not same_file and in_after != isrc.encode("utf-8"):
@@ -314,6 +325,10 @@ def oracle(rng, tier):
     n = 2500 if tier == "quick" else 14000
     pts = [c for c in fam_syncprops.gen(rng, int(n * 1.45), tier) if c["fn"] == "sync_properties"][:n]
     pts = [dict(p, args=list(p["args"]), tags=list(p["tags"])) for p in FIXED_POINTS] + pts
+    # a few of the calls once more as `python -m doctrans sync_properties ...` in a process of their own
+    plain = [p for p in pts if not p.get("history") and len(p["args"][2]) == len(p["args"][4])]
+    for p in rng.sample(plain, min(len(plain), 24 if tier == "quick" else 150)):
+        pts.append(dict(p, route="cli-subprocess", tags=[t for t in p["tags"] if not t.startswith("route-")] + ["route-cli-subprocess"]))
     wires = [fam_syncprops.wire_args(p["args"]) for p in pts]
     outs = run_model([dumps([Sym("c14_class")] + w) for w in wires] + [dumps([Sym("c14_holds")] + w) for w in wires])
     classes, mholds = outs[:len(pts)], outs[len(pts):]
@@ -344,6 +359,13 @@ def oracle(rng, tier):
                     hist["not-absorbed:%s:%s" % (cls, kind)] += 1
                     what += " [the plain call with this Literal written in the input file is inside the proved region]"
                     cls = None
+        if not ok and cls is not None and mh == "true" and not reformatted:
+            # the recorded classes are classes of the MODELLED behaviour: on this call the faithful model of the code
+            # (quirks of several pairs included) satisfies the property, so what went wrong here is none of them
+            hist["not-absorbed:%s:model-holds" % cls] += 1
+            what += " [the model of the code satisfies the property on this call: not what the recorded class %s describes]" % cls
+            cls = None
+        hist["route:%s:%s" % (p.get("route") or "api", "history" if p.get("history") else "single")] += 1
         strata = ":".join(p["tags"][:4])
         hist["%s:%s:%s" % (strata, "holds" if ok else "fails", cls or "in-guard")] += 1
         if cls is None:
@@ -365,7 +387,12 @@ def oracle(rng, tier):
                 "too); modules with multi-line text constants (blank-only lines, odd indentation) outside the addressed "
                 "positions; several pairs that meet (same output address twice, input address = a later output address, "
                 "swapped pairs; three fixed points of that kind first), run on "
-                "real temporary files; non-trivial = distinct call inside the proved region (guard_C14)",
+                "real temporary files; x how the call is made (the function; the command line doctrans.__main__.main with "
+                "repeated --input-param/--output-param, pair by pair or grouped, the same input parameter for several "
+                "outputs included; `python -m doctrans` in a process of its own) x alone / after 1..2 earlier calls in the "
+                "same process on the same paths (same call, other output module, input file edited in between, other input "
+                "module), each call judged against the files as they are when it starts; "
+                "non-trivial = distinct call inside the proved region (guard_C14)",
         "failures": failures,
         "model_impl_property_disagreements": disagree,
         "histogram": dict(hist),
